@@ -1015,6 +1015,8 @@ func (v *Verifier) loopBack(li *loopInfo, st *State, phis []*ssa.Phi, vals []Val
 func (v *Verifier) havocLoop(li *loopInfo, st *State) {
 	maps := map[string]string{} // name -> sort
 	all := false
+	onlyCallbacks := true
+	var allKeep map[string]bool
 	// local cells (address-taken / captured variables) written in the loop: only those cells are
 	// havocked, the other cells of the same sort keep their values
 	cellRefs := map[string][]string{}
@@ -1061,33 +1063,60 @@ func (v *Verifier) havocLoop(li *loopInfo, st *State) {
 				maps[mp] = arr("Int", arr(ks, "Bool"))
 				maps[v.env.mlName(mt)] = arr("Int", "Int")
 			case *ssa.Call:
-				if v.callMods(x.Common(), maps) {
+				if pr, ok := x.Common().Value.(*ssa.Parameter); ok && v.contract != nil && v.contract.Callbacks[pr.Name()] != nil {
+					// call of a callback parameter: everything but the preserved maps may change
+					keep := v.callbackKeep(st, v.contract.Callbacks[pr.Name()])
 					if !all {
+						allKeep = keep
+					} else {
+						nk := map[string]bool{}
+						for n := range keep {
+							if allKeep[n] {
+								nk[n] = true
+							}
+						}
+						allKeep = nk
+					}
+					all = true
+					continue
+				}
+				if v.callMods(x.Common(), maps) {
+					onlyCallbacks = false
+					if !all || len(allKeep) > 0 {
 						v.notes = append(v.notes, fmt.Sprintf("loop %d: no frame known for the call at %s (%s)", li.ordinal, v.posOf(x), x.Common().String()))
 					}
 					all = true
+					allKeep = nil
 				}
 			case *ssa.Defer:
 				if v.callMods(x.Common(), maps) {
 					all = true
+					onlyCallbacks = false
 				}
 			case *ssa.Go:
 				all = true
+				onlyCallbacks = false
 			}
 		}
 	}
 	if all {
-		for name, srt := range st.hsort {
-			maps[name] = srt
+		// everything (except what every callback in the loop preserves) may change, including maps
+		// not read so far (epoch mechanism of havocAllExcept)
+		if len(allKeep) == 0 {
+			v.notes = append(v.notes, fmt.Sprintf("loop %d: contains a call without a frame; every heap map is havocked", li.ordinal))
 		}
-		for name := range v.env.init {
-			if _, ok := maps[name]; !ok {
-				if srt, ok := st.hsort[name]; ok {
-					maps[name] = srt
-				}
-			}
+		for n := range maps {
+			delete(allKeep, n) // written directly in the loop as well
 		}
-		v.notes = append(v.notes, fmt.Sprintf("loop %d: contains a call without a frame; every heap map known so far is havocked", li.ordinal))
+		uw := st.unknownWrites
+		v.havocAllExcept(st, allKeep)
+		if onlyCallbacks {
+			// callback effects are charged to the closure at the caller's call site: own writes are
+			// measured from here on
+			st.unknownWrites = uw
+			v.frameCheckpoint(st)
+		}
+		return
 	}
 	names := make([]string, 0, len(maps))
 	for n := range maps {
@@ -2266,6 +2295,9 @@ func (v *Verifier) frameFormulas(st *State, asGoal bool) []frameF {
 	for _, name := range sortedKeys(st.heap) {
 		cur := st.heap[name]
 		init, ok := v.env.init[name]
+		if b, has := st.frameBase[name]; has {
+			init, ok = b, true
+		}
 		if !ok || cur == init {
 			continue
 		}
@@ -2314,6 +2346,26 @@ func (v *Verifier) checkFrame(st *State, in ssa.Instruction) {
 }
 
 func (v *Verifier) cellMapEscapes(name string) bool { return true }
+
+// frameCheckpoint makes the current heap versions the reference for the frame obligations.
+func (v *Verifier) frameCheckpoint(st *State) {
+	st.frameBase = make(map[string]string, len(st.heap))
+	for n, t := range st.heap {
+		st.frameBase[n] = t
+	}
+}
+
+// callbackKeep: names of the heap maps a callback parameter is required to preserve.
+func (v *Verifier) callbackKeep(st *State, cb *CallbackSpec) map[string]bool {
+	pre := v.specEnv(st, v.baseVars(st)).inState(v.entry)
+	keep := map[string]bool{}
+	tmp := &Contract{Modifies: cb.Preserves, Pkg: v.contract.Pkg}
+	sets, _, _ := v.modSets(tmp, pre)
+	for n := range sets {
+		keep[n] = true
+	}
+	return keep
+}
 
 func (v *Verifier) havocAll(st *State) { v.havocAllExcept(st, nil) }
 
